@@ -11,6 +11,8 @@
 
 #include <pika/execution.hpp>
 #include <pika/init.hpp>
+#include <pika/latch.hpp>
+#include <pika/semaphore.hpp>
 #include <pika/mpi.hpp>
 #include <pika/runtime.hpp>
 #include <pika/thread.hpp>
@@ -90,7 +92,11 @@ struct pairinfo
 
 static std::vector<opinfo>* g_ops = nullptr;
 static std::vector<pairinfo>* g_pairs = nullptr;
-static std::atomic<long> g_launched{0}, g_completed{0}, g_pairs_out{0};
+static std::atomic<long> g_launched{0}, g_completed{0};
+// Throttle: one permit per outstanding pair.  Submitters *block* on it (no yield-spinning: pika's
+// "fifo" queues are per-producer moodycamel queues whose try_dequeue prefers the longest sub-queue, so
+// workers saturated with spinning tasks can starve a task that another OS thread made pending).
+static pika::counting_semaphore<>* g_permits = nullptr;
 static std::atomic<int> g_phase{0};
 static std::string g_header;
 
@@ -130,8 +136,7 @@ static void complete(int id, int what)    // what: 0 value, 1 error, 2 stopped
     if (o.k == kind::send && what != 0) monitor("send " + std::to_string(id) + " completed with an error");
     if ((o.k == kind::badrank || o.k == kind::thrower) && what != 1)
         monitor("failing operation " + std::to_string(id) + " did not complete with set_error");
-    if (o.k == kind::recv || o.k == kind::trunc) g_pairs_out.fetch_sub(1);
-    if (o.k == kind::badrank || o.k == kind::thrower) g_pairs_out.fetch_sub(1);
+    if (o.k != kind::send) g_permits->release();
     g_completed.fetch_add(1);
 }
 
@@ -350,6 +355,7 @@ static int pika_main()
             g_phase.store(10 * round + 2);
             std::atomic<int> subs_done{0};
             int nsub = int(slices.size());
+            auto& subs_latch = *new pika::latch(nsub + 1);    // leaked on purpose (no lifetime race at scope exit)
             for (int si = 0; si < nsub; ++si)
             {
                 std::uint64_t ss = r.next();
@@ -360,21 +366,18 @@ static int pika_main()
                     {
                         int id = sl[i];
                         opinfo& o = (*g_ops)[id];
-                        bool counts = o.k != kind::send;    // one "outstanding" unit per pair
-                        if (counts)
-                        {
-                            pika::util::yield_while(
-                                [&] { return g_pairs_out.load() >= g_cfg.outstanding; }, "e2 mpi throttle");
-                            g_pairs_out.fetch_add(1);
-                        }
+                        // one permit per pair, taken before the first operation of the pair is launched
+                        // (the permit is returned by the completion of the pair's non-send operation)
+                        bool first_of_pair = (i == 0) || ((*g_ops)[sl[i - 1]].pair != o.pair);
+                        if (first_of_pair) g_permits->acquire();
                         launch_op(id, rr);
                         if (rr.below(4) == 0) pika::this_thread::yield();
                     }
                     subs_done.fetch_add(1);
+                    subs_latch.count_down(1);
                 }));
             }
-            if (g_cfg.variant != "early")
-                pika::util::yield_while([&] { return subs_done.load() < nsub; }, "e2 mpi submitters");
+            if (g_cfg.variant != "early") subs_latch.arrive_and_wait();
             g_phase.store(10 * round + 3);
             // pika::wait(): must not return while requests are in flight.  (With the `early` variant
             // the submitters are still running: they are tasks, so wait() covers them too.)
@@ -382,6 +385,7 @@ static int pika_main()
             e2::note("x.waited", nullptr, std::uint64_t(g_launched.load()), std::uint64_t(g_completed.load()));
             g_phase.store(10 * round + 4);
             if (subs_done.load() != nsub) monitor("pika::wait() returned while submitter tasks were still running");
+            if (g_cfg.variant == "early") subs_latch.arrive_and_wait();
             check_all_complete("pika::wait() returned", next_op);
             g_phase.store(10 * round + 5);
         }    // stop_polling
@@ -435,6 +439,7 @@ int main(int argc, char** argv)
 
     g_ops = new std::vector<opinfo>(std::size_t(2 * g_cfg.pairs * g_cfg.rounds + 4));
     g_pairs = new std::vector<pairinfo>(std::size_t(g_cfg.pairs * g_cfg.rounds + 2));
+    g_permits = new pika::counting_semaphore<>(g_cfg.outstanding);
     e2::g_wanted = &mpi_wanted;
     e2::install(g_cfg.seed, perturb);
     std::signal(SIGSEGV, crash_handler);
